@@ -164,3 +164,75 @@ example : (World.runP nvMk? (fun s (_ : Unit) => s + 1) nvW [.get 1, .get 2, .ac
 example : (World.stepPinned nvMk? (fun _ _ => 99) (fun s (_ : Unit) => s) nvW (.get 1)).1.slot 1 = some 99 := by decide
 
 end Vrp.C16
+
+/-!
+## instantiation with the modelled MIRP getters (no `getD`: a getter that raises keeps nothing)
+
+`Props/C16.lean`'s `mkForm` totalises the getters with `.getD` (written before fix ff3f4a7, when a raising getter left
+the bare object behind).  Here the getters are used as they are: `getSeqBased` / `getPathBased` answer `none` when the
+Python raises (no travel arc of positive time / no arc or port for the high-cost estimate).
+-/
+namespace Vrp.C16
+open Vrp
+
+/-- the three MIRP getters, partial -/
+def mkForm? (m : Mirp) (freqs : List Rat) (pick : Nat → List Nat → Nat) (strict : Bool) : Nat → Graph → Option Form
+  | 0, src => some (.arc ({ m with g := src } : Mirp).getArcBased)
+  | 1, src => (({ m with g := src } : Mirp).getPathBased freqs pick).map .path
+  | _ + 2, src => (({ m with g := src } : Mirp).getSeqBased strict).map .seq
+
+/-- run a history of getter requests (any of which may raise) and calls on the MIRP `m` -/
+def mirpRunP (m : Mirp) (freqs : List Rat) (pick : Nat → List Nat → Nat) (strict : Bool)
+    (ops : List (WOp FAct)) : World Form :=
+  World.runP (mkForm? m freqs pick strict) (actForm pick) (mirpWorld m) ops
+
+variable (m : Mirp) (freqs : List Rat) (pick : Nat → List Nat → Nat) (strict : Bool)
+
+theorem mirpP_source_unchanged (ops : List (WOp FAct)) : (mirpRunP m freqs pick strict ops).source = m.g :=
+  runP_source_unchanged (mkForm? m freqs pick strict) (actForm pick) (mirpWorld m) ops
+
+theorem mirpP_non_interference (ops : List (WOp FAct)) (j : Nat) :
+    (mirpRunP m freqs pick strict ops).slot j
+      = (mirpRunP m freqs pick strict (ops.filter fun op => op.target = j)).slot j :=
+  runP_non_interference (mkForm? m freqs pick strict) (actForm pick) (mirpWorld m) ops j
+
+theorem mirpP_order_independent (ops₁ ops₂ : List (WOp FAct))
+    (h : ∀ j, ops₁.filter (fun op => op.target = j) = ops₂.filter (fun op => op.target = j)) :
+    ∀ j, (mirpRunP m freqs pick strict ops₁).slot j = (mirpRunP m freqs pick strict ops₂).slot j :=
+  runP_order_independent (mkForm? m freqs pick strict) (actForm pick) (mirpWorld m) ops₁ ops₂ h
+
+/-- the sequence-based request raises exactly when the MIRP's graph has no arc of positive travel time -/
+theorem mirp_seq_request_raises_iff :
+    (World.stepP (mkForm? m freqs pick strict) (actForm pick) (mirpWorld m) (.get 2)).2 = true ↔
+      m.getSeqBased strict = none := by
+  have hm : ({ m with g := m.g } : Mirp) = m := rfl
+  simp only [World.stepP, mirpWorld, mkForm?, hm]
+  cases m.getSeqBased strict <;> simp
+
+/-- a MIRP with ports but no travel arc (only exit arcs of time 0): the sequence getter raises, the arc getter works -/
+def exOpsNoTravel : List MOp :=
+  [.port "S" (1/2) 1 2, .port "D" (3/2) (-1) 2, .exit 0 1]
+def exMirpNoTravel : Mirp := (Mirp.build 10 (Mirp.new 1 4) exOpsNoTravel).getD (Mirp.new 1 4)
+
+/-- **non-vacuity with real getters**: on `exMirpNoTravel` the sequence-based request raises and leaves no object, asked again
+    it raises again; the arc-based request before or after it yields the same formulation; the source is untouched -/
+theorem exMirpNoTravel_raising_request (freqs : List Rat) (pick : Nat → List Nat → Nat) (strict : Bool) :
+    exMirpNoTravel.g.arcs.length ≠ 0 ∧ exMirpNoTravel.getSeqBased strict = none ∧
+    (World.stepP (mkForm? exMirpNoTravel freqs pick strict) (actForm pick) (mirpWorld exMirpNoTravel) (.get 2)).2 = true ∧
+    (mirpRunP exMirpNoTravel freqs pick strict [.get 2, .get 0, .get 2]).slot 2 = none ∧
+    (mirpRunP exMirpNoTravel freqs pick strict [.get 2, .get 0, .get 2]).slot 0
+      = (mirpRunP exMirpNoTravel freqs pick strict [.get 0]).slot 0 ∧
+    (mirpRunP exMirpNoTravel freqs pick strict [.get 2, .get 0, .get 2]).source = exMirpNoTravel.g := by
+  have hnone : exMirpNoTravel.getSeqBased strict = none := by
+    cases strict <;> decide +kernel
+  refine ⟨by decide +kernel, hnone, (mirp_seq_request_raises_iff _ _ _ _).mpr hnone, ?_, ?_, mirpP_source_unchanged _ _ _ _ _⟩
+  · rw [mirpP_non_interference]
+    have hf : ([WOp.get 2, .get 0, .get 2] : List (WOp FAct)).filter (fun op => op.target = 2) = [.get 2, .get 2] := by simp [List.filter, WOp.target]
+    rw [hf]
+    have hm : ({ exMirpNoTravel with g := exMirpNoTravel.g } : Mirp) = exMirpNoTravel := rfl
+    simp [mirpRunP, World.runP, World.stepP, mirpWorld, mkForm?, hm, hnone]
+  · rw [mirpP_non_interference]
+    have hf : ([WOp.get 2, .get 0, .get 2] : List (WOp FAct)).filter (fun op => op.target = 0) = [.get 0] := by simp [List.filter, WOp.target]
+    rw [hf]
+
+end Vrp.C16
